@@ -103,6 +103,12 @@ def gen_cases(tier, seed):
             "cli": rnd.random() < 0.12,
             "shard_bits": [rnd.randint(0, 3), rnd.randint(0, 3), rnd.randint(0, 3)],
             "vseed": rnd.randrange(2 ** 32)})
+    # directed: chunks of more than 2^20 voxels (vectorised integer expectation)
+    for k in range(3 if tier == "quick" else 12):
+        cases.append({"huge": True, "stored": ["uint8", "int16", "uint16"][k % 3],
+                      "target": ["uint8", "uint8", "float32", "uint16"][k % 4],
+                      "mmap": k % 2 == 1, "storage": ["flat", "gzip", "deep"][k % 3],
+                      "vseed": rnd.randrange(2 ** 32)})
     return cases
 
 
@@ -181,7 +187,79 @@ def _expected(np, raw_vals, slope, inter, case, out):
     return out_vals
 
 
+def run_huge(case):
+    """One chunk of more than 2^20 voxels; no header scaling, so the expectation is the
+    stored value saturated to the target range (exact, vectorised)."""
+    import nibabel
+    import numpy as np
+    from neuroglancer_scripts import accessor as accessor_mod
+    from neuroglancer_scripts import precomputed_io, volume_reader
+    top = tempfile.mkdtemp(prefix="c01h-")
+    obs = {"conversions": 0, "voxels_compared": 0, "huge_chunks": 1,
+           "stored": {case["stored"]: 1}, "targets": {case["target"]: 1},
+           "storage": {case["storage"]: 1}, "layouts": {"3d": 1}, "mmap": int(case["mmap"])}
+    v = []
+    try:
+        shape = (130, 129, 131)
+        g = np.random.default_rng(case["vseed"])
+        dt = np.dtype(case["stored"])
+        ii = np.iinfo(dt)
+        raw = g.integers(max(ii.min, -3000), min(ii.max, 3000), size=shape,
+                         endpoint=True).astype(dt)
+        fn = os.path.join(top, "v.nii")
+        hdr = nibabel.Nifti1Header()
+        hdr.set_data_dtype(dt)
+        nibabel.save(nibabel.Nifti1Image(raw, np.eye(4), header=hdr), fn)
+        dest = os.path.join(top, "out")
+        os.makedirs(dest)
+        info = {"type": "image", "data_type": case["target"], "num_channels": 1,
+                "scales": [{"key": "k", "size": list(shape), "chunk_sizes": [[128] * 3],
+                            "encoding": "raw", "resolution": [1e6] * 3,
+                            "voxel_offset": [0, 0, 0]}]}
+        with open(os.path.join(dest, "info"), "w") as f:
+            json.dump(info, f)
+        ctx = f"huge chunk {shape} stored={case['stored']} -> {case['target']} " \
+              f"mmap={case['mmap']} {case['storage']}"
+        try:
+            rc = volume_reader.volume_file_to_precomputed(
+                fn, dest, load_full_volume=not case["mmap"],
+                options={"gzip": case["storage"] == "gzip",
+                         "flat": case["storage"] == "flat"})
+        except Exception as exc:  # noqa: BLE001
+            return {"violations": [{"kind": "conversion-of-admissible-input-failed",
+                                    "detail": f"{ctx}: {type(exc).__name__}: {exc}"}],
+                    "obs": obs}
+        obs["conversions"] = 1
+        pio = precomputed_io.get_IO_for_existing_dataset(
+            accessor_mod.get_accessor_for_url(dest))
+        want = np.moveaxis(raw.astype(np.int64), (0, 1, 2), (2, 1, 0))[np.newaxis]
+        if case["target"] in dx.INT_RANGE:
+            lo, hi = dx.INT_RANGE[case["target"]]
+            want = np.clip(want, lo, hi)
+        X, Y, Z = shape
+        for x, y, z in itertools.product(range(0, X, 128), range(0, Y, 128),
+                                         range(0, Z, 128)):
+            c = (x, min(x + 128, X), y, min(y + 128, Y), z, min(z + 128, Z))
+            got = np.asarray(pio.read_chunk("k", c))
+            exp = want[:, c[4]:c[5], c[2]:c[3], c[0]:c[1]]
+            obs["voxels_compared"] += int(exp.size)
+            if got.shape != exp.shape or not np.array_equal(got.astype(np.float64),
+                                                            exp.astype(np.float64)):
+                n = int((got.astype(np.float64) != exp.astype(np.float64)).sum()) \
+                    if got.shape == exp.shape else -1
+                v.append({"kind": "voxel-differs-from-mapped-input",
+                          "detail": f"{ctx}: chunk {c}: {n} of {exp.size} voxels differ"})
+                break
+    finally:
+        shutil.rmtree(top, ignore_errors=True)
+    return {"violations": v, "obs": obs, "sigs": [f"huge|{case['stored']}|{case['target']}|"
+                                                  f"{case['mmap']}|{case['storage']}"],
+            "sample": {"huge": True, "stored": case["stored"], "target": case["target"]}}
+
+
 def run_case(case):
+    if case.get("huge"):
+        return run_huge(case)
     import nibabel
     import numpy as np
     from neuroglancer_scripts import accessor as accessor_mod
@@ -394,4 +472,5 @@ def gates(obs, tier):
         "compressed_segmentation": obs.get("cseg", 0) > 5,
         "exact_results_demanded": obs.get("exact_demanded", 0) > 1000,
         "axes_longer_than_128_voxels": obs.get("long_axis", 0) > 5,
+        "chunks_beyond_2_20_voxels": obs.get("huge_chunks", 0) > 0,
     }
